@@ -28,15 +28,35 @@ QUICK_A = ['seqfail', 'class', 'rec']
 QUICK_B = ['lit', 'optA', 'list']
 
 PY = '''TICKS = []
+NEST = [0]
 def tick(name):
     def f(rest):
-        TICKS.append((name, len(rest)))
+        if not NEST[0]:              # evaluations made by a nested parse (started from inline Python) are not counted
+            TICKS.append((name, len(rest)))
         return rest
     return f
+def nested(v):
+    # a callback that starts parses of its own in the middle of the outer parse, and discards their results
+    NEST[0] += 1
+    try:
+        for _t in ('b', 'ab', ''):
+            try:
+                B.parse(_t)
+            except Exception:
+                pass
+            try:
+                parse(_t)
+            except Exception:
+                pass
+    finally:
+        NEST[0] -= 1
+    return v
 tick_A = tick('A')
 tick_B = tick('B')
 tick_S = tick('S')
 tick_start = tick('start')
+tick_S1 = tick('S1')
+tick_S2 = tick('S2')
 tick_Ig0 = tick('Ig0')'''
 
 
@@ -86,6 +106,28 @@ def universe(tier):
         for an in ('lit', 'seqfail', 'class'):
             for bn in ('lit', 'list'):
                 yield ('ignore-rule', e, [('A', BODIES_A[an]), ('B', BODIES_B[bn])], 'ab\\s:5', True, [SPACE])
+    # re-entrancy: a callback inside rule A starts nested parses; the outer parse must still evaluate every
+    # rule once per position
+    NA = [('rule', None, ('apply', ('str', 'a'), ('py', 'nested'))),
+          ('rule', None, ('seq', ('apply', ('str', 'a'), ('py', 'nested')), ('opt', B_))),
+          ('class', None, [('x', False, ('apply', ('str', 'a'), ('py', 'nested'))), ('y', False, ('opt', ('str', 'b')))])]
+    # (B is evaluated at a position, then A's callback runs nested parses, then B is referred to again there)
+    RS = list(starts_small()) + [
+        ('seq', ('expect', ('seq', ('opt', B_), A_)), ('opt', B_), A_),
+        ('choice', ('seq', B_, A_, ('str', '!')), ('seq', B_, A_)),
+        ('choice', ('seq', ('opt', B_), A_, ('str', '!')), ('seq', ('opt', B_), A_), B_),
+        ('longest', ('seq', ('star', B_), A_), ('seq', ('star', B_), A_, B_)),
+    ]
+    for e in RS:
+        for na in NA:
+            for bn in ('lit', 'list'):
+                yield ('re-entrant', e, [('A', na), ('B', BODIES_B[bn])], 'ab!:4', False, [])
+    # a long input: more memo entries than any plausible size cap, then backtracking over the whole input
+    LONG = [('S1', ('rule', None, ('star', A_))), ('S2', ('rule', None, ('star', ('choice', A_, B_)))), ('A', ('rule', None, ('str', 'a'))),
+            ('B', ('rule', None, ('str', 'b')))]
+    n = 70000 if tier == 'quick' else 300000
+    yield ('long-input', ('choice', ('seq', ('ref', 'S1'), ('str', '!')), ('seq', ('ref', 'S2'), ('str', '?')), ('ref', 'S2')),
+           LONG, ['a' * n + '?', 'a' * n + 'b', 'a' * (n // 2) + 'b' + 'a' * (n // 2) + '!'], False, [])
     # families whose un-memoised evaluation is exponential
     S = ('ref', 'S')
     fams = [
@@ -143,7 +185,7 @@ def run_job(job):
         ctr[k] = ctr.get(k, 0) + n
     rules = [('start', ('rule', None, job['start']))] + list(job['rules'])
     ign = job.get('ignores') or []
-    mspec = Spec(rules, ignores=ign)
+    mspec = Spec(rules, ignores=ign, py=['nested = lambda v: v'])
     # (inside an ignore rule every literal is itself followed by a skip, so the probe must not
     # match the empty string: it would re-enter the skip at the end of the text for ever)
     iprobe = lambda i: ('opt', ('expect', ('apply', ('re', '(?s).+'), ('py', 'tick_Ig%d' % i))))
@@ -185,10 +227,11 @@ def run_job(job):
                 raise AssertionError('model self-check: memoised != un-memoised on %r %r' % (desc, text))
             nontrivial = uticks[0] > sum(mticks.values())
         del g.TICKS[:]
-        out = impl.run(g.parse, text, 0, True, raw=True, time_limit=2.0)
+        limit = 2.0 if len(text) < 1000 else 60.0
+        out = impl.run(g.parse, text, 0, True, raw=True, time_limit=limit)
         if out['kind'] == 'DIVERGES':
             del g.TICKS[:]
-            out = impl.run(g.parse, text, 0, True, raw=True, time_limit=20.0)
+            out = impl.run(g.parse, text, 0, True, raw=True, time_limit=limit * 10)
         ticks = list(g.TICKS)
         bump('cases')
         if nontrivial:
@@ -257,7 +300,9 @@ def run(tier, seed):
     chk = Check('C07', tier, seed)
     chk.rule = ('start expressions with <=2 operators over {"a","b",A,B} mentioning a rule at least twice x rule-body menus '
                 '(3x3 quick, 6x6 thorough) x all inputs over {a,b} of length <=4, plus three families whose un-memoised '
-                'evaluation is exponential (all inputs <=5/6 and nesting depth up to 40/80); every rule body carries a '
+                'evaluation is exponential (all inputs <=5/6 and nesting depth up to 40/80), a family whose rule A starts nested parses from '
+                'inline Python, a family with probed ignore rules, and inputs of 70 000 (thorough 300 000) characters that are parsed, '
+                'abandoned and parsed again through another rule; every rule body carries a '
                 'zero-width inline-Python probe; oracle: <=1 evaluation per <rule, position>, total <= rules x (n+1), same '
                 'object for the same <rule, position>, outcome == model; non-trivial = the un-memoised model evaluates '
                 'strictly more rule bodies than the memoised one (a memo hit is needed)')
